@@ -120,11 +120,60 @@ enum Outcome {
 }
 
 /// evaluate a batch of cases in parallel: each worker builds its lines (running the implementation) and runs one driver
+/// where `check` writes its summary; a hang report goes to `<that>.hang`
+pub static SUMMARY_PATH: std::sync::OnceLock<String> = std::sync::OnceLock::new();
+/// how long one case may keep the implementation busy before the run is given up as "does not terminate" (C07)
+pub const HANG_LIMIT_MS: u64 = 20_000;
+
+/// a call into the implementation has not returned: a stuck thread cannot be stopped, so the failing case is written
+/// to the hang report and the process ends (exit status 3; `bin/check` turns the report into the violation)
+pub fn report_hang(what: &str, case: Value) -> ! {
+    let path = SUMMARY_PATH.get().cloned().unwrap_or_else(|| "/verif/.build/hang".to_string()) + ".hang";
+    let _ = std::fs::write(&path, serde_json::to_string_pretty(&json!({"kind": "PROP", "what": what, "case": case})).unwrap_or_default());
+    eprintln!("HANG {}", what);
+    std::process::exit(3);
+}
+
+/// run `f` on a helper thread; give up the whole run if it does not return in time
+pub fn with_deadline<T: Send + 'static>(what: &str, case: impl Fn() -> Value, f: impl FnOnce() -> T + Send + 'static) -> T {
+    let (tx, rx) = std::sync::mpsc::channel();
+    std::thread::spawn(move || {
+        let _ = tx.send(f());
+    });
+    match rx.recv_timeout(std::time::Duration::from_millis(HANG_LIMIT_MS)) {
+        Ok(v) => v,
+        Err(std::sync::mpsc::RecvTimeoutError::Timeout) => report_hang(what, case()),
+        Err(_) => panic!("worker died"),
+    }
+}
+
 fn eval_batch<C: Case>(prop: &str, cases: &[C], id_base: usize) -> Vec<Outcome> {
+    use std::sync::atomic::{AtomicBool, AtomicU64, AtomicUsize, Ordering};
     let nthreads = threads().min(cases.len().max(1));
     let chunk = (cases.len() + nthreads - 1) / nthreads.max(1);
     let mut results: Vec<Vec<Outcome>> = Vec::new();
+    // watchdog: per worker, since when (ms since `t0`, 0 = idle) it has been inside which case
+    let t0 = Instant::now();
+    let nworkers = (cases.len() + chunk.max(1) - 1) / chunk.max(1);
+    let busy_since: Vec<AtomicU64> = (0..nworkers.max(1)).map(|_| AtomicU64::new(0)).collect();
+    let busy_case: Vec<AtomicUsize> = (0..nworkers.max(1)).map(|_| AtomicUsize::new(0)).collect();
+    let done = AtomicBool::new(false);
     std::thread::scope(|s| {
+        let (busy_since, busy_case, done) = (&busy_since, &busy_case, &done);
+        s.spawn(move || {
+            while !done.load(Ordering::SeqCst) {
+                std::thread::sleep(std::time::Duration::from_millis(200));
+                let now = t0.elapsed().as_millis() as u64;
+                for w in 0..busy_since.len() {
+                    let since = busy_since[w].load(Ordering::SeqCst);
+                    if since != 0 && now.saturating_sub(since) > HANG_LIMIT_MS {
+                        let idx = busy_case[w].load(Ordering::SeqCst);
+                        let case = cases.get(idx).map(|c| c.json()).unwrap_or(json!({}));
+                        report_hang(&format!("a call into the library did not return within {} s (endless loop or unbounded recursion)", HANG_LIMIT_MS / 1000), case);
+                    }
+                }
+            }
+        });
         let mut handles = Vec::new();
         for (ci, part) in cases.chunks(chunk.max(1)).enumerate() {
             let prop = prop.to_string();
@@ -134,7 +183,11 @@ fn eval_batch<C: Case>(prop: &str, cases: &[C], id_base: usize) -> Vec<Outcome> 
                 let mut metas: Vec<Option<(Meta, u64)>> = Vec::new();
                 for (i, c) in part.iter().enumerate() {
                     let id = format!("c{}", id_base + ci * chunk + i);
-                    match c.line(&id, &prop) {
+                    busy_case[ci].store(ci * chunk + i, Ordering::SeqCst);
+                    busy_since[ci].store((t0.elapsed().as_millis() as u64).max(1), Ordering::SeqCst);
+                    let line = c.line(&id, &prop);
+                    busy_since[ci].store(0, Ordering::SeqCst);
+                    match line {
                         LineOut::Line(l, m) => {
                             // the hash of the case ignores its id
                             let h = hash_str(l.splitn(3, ' ').nth(2).unwrap_or(""));
@@ -176,6 +229,7 @@ fn eval_batch<C: Case>(prop: &str, cases: &[C], id_base: usize) -> Vec<Outcome> 
         for h in handles {
             results.push(h.join().unwrap_or_default());
         }
+        done.store(true, Ordering::SeqCst);
     });
     results.into_iter().flatten().collect()
 }
@@ -510,8 +564,8 @@ pub fn gen_history_cases(prop: &str, tier: &str, rng: &mut Rng, start: usize, n:
                     cfg.max_nodes = 250;
                 }
                 let themes: Vec<Theme> = match prop {
-                    "C05" => vec![Theme::CaseVariants, Theme::Separators, Theme::SuffixTraps, Theme::Concat, Theme::Keywords, Theme::Mixed],
-                    "C14" => vec![Theme::Recurring, Theme::Concat, Theme::CaseVariants, Theme::Plain, Theme::Prelude, Theme::Mixed],
+                    "C05" => vec![Theme::CaseVariants, Theme::Separators, Theme::SuffixTraps, Theme::Concat, Theme::Keywords, Theme::Mixed, Theme::NumberedNames],
+                    "C14" => vec![Theme::Recurring, Theme::Concat, Theme::CaseVariants, Theme::Plain, Theme::Prelude, Theme::Mixed, Theme::NumberedNames],
                     _ => gen::THEMES.to_vec(),
                 };
                 if prop == "C09" {
@@ -1299,6 +1353,14 @@ fn is_k5(sxr: bool, p: &Program, j: usize, r: &compile::DocResult) -> bool {
         && p.docs.get(j).map_or(false, |d| d.to_xml().contains("<!ENTITY") && crate::dom::has_entity_markers(&d.root))
 }
 
+/// K7: xml-rs knows UTF-8, UTF-16, ISO-8859-1 and ASCII only; a declaration naming another encoding is rejected
+fn is_k7(sxr: bool, p: &Program, j: usize, r: &compile::DocResult) -> bool {
+    sxr && known_listed("C13", "sxr-unsupported-encoding-label")
+        && !r.ok
+        && r.err.contains("Unsupported encoding")
+        && p.docs.get(j).map_or(false, |d| d.prolog.iter().any(|i| matches!(i, Item::Decl(t) if t.contains("encoding"))))
+}
+
 fn known_listed(prop: &str, sig: &str) -> bool {
     std::fs::read_to_string("/verif/known_findings.json")
         .ok()
@@ -1354,6 +1416,7 @@ pub fn eval_programs_v(sum: &mut Summary, programs: &[Program], sxr: bool, nbins
     let mut k4_hits = 0u64;
     let mut k5_hits = 0u64;
     let mut k6_hits = 0u64;
+    let mut k7_hits = 0u64;
     let mut skipped: HashSet<usize> = HashSet::new();
     for (i, (p, r)) in programs.iter().zip(results.iter()).enumerate() {
         let mut per_doc = Vec::new();
@@ -1368,6 +1431,10 @@ pub fn eval_programs_v(sum: &mut Summary, programs: &[Program], sxr: bool, nbins
             if !ok && is_k4(sxr, p, j, &plain) {
                 ok = true;
                 k4_hits += 1;
+            }
+            if !ok && is_k7(sxr, p, j, &plain) {
+                ok = true;
+                k7_hits += 1;
             }
             if !ok && is_k5(sxr, p, j, &plain) && is_k5(sxr, p, j, &deny) {
                 ok = true;
@@ -1422,6 +1489,10 @@ pub fn eval_programs_v(sum: &mut Summary, programs: &[Program], sxr: bool, nbins
     if k6_hits > 0 {
         let e = sum.extra.entry("known_hits_K6".to_string()).or_insert(json!(0));
         *e = json!(e.as_u64().unwrap_or(0) + k6_hits);
+    }
+    if k7_hits > 0 {
+        let e = sum.extra.entry("known_hits_K7".to_string()).or_insert(json!(0));
+        *e = json!(e.as_u64().unwrap_or(0) + k7_hits);
     }
     let verdicts = match driver::run(&lines) {
         Ok(v) => v,
@@ -1648,6 +1719,9 @@ pub fn check_compile(sum: &mut Summary, sxr: bool) {
     if sum.extra.get("known_hits_K6").and_then(|v| v.as_u64()).unwrap_or(0) > 0 {
         hits.push(K6_SIG);
     }
+    if sum.extra.get("known_hits_K7").and_then(|v| v.as_u64()).unwrap_or(0) > 0 {
+        hits.push("sxr-unsupported-encoding-label");
+    }
     if !hits.is_empty() {
         sum.extra.insert("known_hits".into(), json!(hits));
     }
@@ -1753,7 +1827,10 @@ fn rewrite_doc(rng: &mut Rng, d: &Doc, kind: usize, touched: &mut usize, ws_is_t
     match kind {
         2 => {
             if !out.prolog.iter().any(|i| matches!(i, Item::Decl(_))) && rng.chance(1, 2) {
-                out.prolog.insert(0, Item::Decl("xml version=\"1.0\"".into()));
+                let decls = ["xml version=\"1.0\"", "xml version=\"1.0\" encoding=\"UTF-8\"", "xml version=\"1.0\" encoding=\"ISO-8859-1\"", "xml version=\"1.0\" encoding=\"US-ASCII\" standalone=\"yes\"", "xml version=\"1.1\" encoding=\"utf-16\""];
+                let ascii = out.to_xml().is_ascii();
+                let d = rng.pick(&decls).to_string();
+                out.prolog.insert(0, Item::Decl(if ascii || d.contains("UTF-8") || !d.contains("encoding") { d } else { "xml version=\"1.0\"".into() }));
                 *touched += 1;
             }
             if !out.prolog.iter().any(|i| matches!(i, Item::DocType(_))) && rng.chance(1, 2) {
@@ -1847,6 +1924,10 @@ pub fn main(args: &[String]) -> i32 {
             let tier = arg_value(args, "--tier").unwrap_or_else(|| "quick".into());
             let seed: u64 = arg_value(args, "--seed").and_then(|s| s.parse().ok()).unwrap_or(1);
             let t0 = Instant::now();
+            if let Some(p) = arg_value(args, "--summary") {
+                let _ = SUMMARY_PATH.set(p.clone());
+                let _ = std::fs::remove_file(p + ".hang");
+            }
             let mut sum = Summary::new(&prop, &tier, seed, &rule_for(&prop));
             if let Some(m) = arg_value(args, "--max-seconds").and_then(|s| s.parse::<u64>().ok()) {
                 sum.deadline = Some(Instant::now() + std::time::Duration::from_secs(m));
@@ -2031,8 +2112,21 @@ pub fn replay(prop: &str, cv: &Value) -> i32 {
     }
 }
 
-pub fn replay_case<C: Case>(prop: &str, c: &C) -> i32 {
-    match c.line("replay", prop) {
+pub fn replay_case<C: Case + 'static>(prop: &str, c: &C) -> i32 {
+    // a replayed case may be one on which the library does not return
+    let (tx, rx) = std::sync::mpsc::channel();
+    let (c2, p2) = (c.clone(), prop.to_string());
+    std::thread::spawn(move || {
+        let _ = tx.send(c2.line("replay", &p2));
+    });
+    let line = match rx.recv_timeout(std::time::Duration::from_millis(HANG_LIMIT_MS)) {
+        Ok(l) => l,
+        Err(_) => {
+            println!("PROP a call into the library did not return within {} s (endless loop or unbounded recursion)", HANG_LIMIT_MS / 1000);
+            std::process::exit(1);
+        }
+    };
+    match line {
         LineOut::Line(l, _) => match driver::run(&[l]) {
             Ok(map) => {
                 let v = map.get("replay").cloned().unwrap_or(Verdict::Bad("no verdict".into()));
